@@ -23,7 +23,20 @@ def gen_case(rng, depth):
         lines.append("TICKS")
     if rng.random() < 0.5:
         lines.append("EVAL " + " ".join("(setq %s %s)" % (v, g.const()) for v in rng.sample(g.VARS, rng.randint(1, 3))))
-    for _ in range(rng.choice([1, 1, 2, 3, 4])):
+    for k in range(rng.choice([1, 1, 2, 3, 4])):
+        c = rng.random()
+        if c < 0.12 and g.funcs:
+            # redefine a function between requests (same arity), or store a function value in a variable
+            i = rng.randrange(len(g.funcs))
+            name, nreq, nopt, rest = g.funcs[i]
+            ps = ["a", "b", "c"][:nreq] + (["&optional"] + ["a", "b", "c"][nreq:nreq + nopt] if nopt else []) + (["&rest", "c"] if rest else [])
+            allf = g.funcs; g.funcs = allf[:i]          # only earlier functions: no recursion through the new body
+            lines.append("EVAL (defun %s (%s) %s)" % (name, " ".join(ps), g.body(2)))
+            g.funcs = allf
+        elif c < 0.2:
+            lines.append("EVAL (setq fv (lambda (a) %s))" % g.body(2))
+            lines.append("EVAL (list (funcall fv %s) (funcall fv %s))" % (g.expr(1), g.expr(1)))
+            lines.append("TICKS")
         lines.append("EVAL " + g.program())
         lines.append("TICKS")
         lines.append("DUMP a b c")
@@ -38,8 +51,20 @@ def small_programs(tier):
     binary = ["(progn %s %s)", "(if %s %s)", "(if nil %s %s)", "(and %s %s)", "(or %s %s)", "(xor %s %s)", "(cond (%s %s))", "(let ((a %s)) %s)",
               "(let* ((a %s) (b a)) %s)", "(f2 %s %s)", "(cons %s %s)", "(dolist (a (list %s)) %s)", "(when %s %s)", "(unless %s %s)",
               "(setq a (cons %s %s))", "(let ((a 5)) (f0) %s %s)"]
+    # loops whose body keeps the value of the loop variable (in a variable, a list, a closure, a let binding) and
+    # reads it after later iterations: every iteration's value is a value of its own
+    loops = ["(dotimes (a 3) %s)", "(dotimes (a 4 (list b c)) %s)", "(dolist (a '(1 2 3)) %s)", "(dolist (a (list 1 (list 2) 3) (list b c)) %s)",
+             "(let ((w 0)) (while (< w 3) (let ((a w)) %s) (setq w (+ w 1))))", "(dotimes (a 2) (dotimes (w 2) %s))",
+             "(dotimes (w 3) (let ((a w)) %s))", "(dotimes (a 3) (let ((w a)) (setq a (+ a 0)) %s))"]
+    keeps = ["(setq b (cons a b))", "(setq c b) (setq b a)", "(or c (setq c a))", "(setq b (cons (lambda () a) b))", "(setq c (list a c))",
+             "(if (equal a 1) (setq c a))", "(setq b (cons (+ a 0) b))", "(set 'c (cons a (if (consp c) c nil)))", "(setq c (f1 a))",
+             "(let ((k a)) (setq b (cons k b)))", "(setq b (append (if (consp b) b nil) (list a)))", "(setq c `(,a . ,c))"]
+    rec = []
+    for l in loops:
+        for k in keeps:
+            rec.append("(progn (setq b nil) (setq c nil) %s (list b c (mapcar (lambda (e) (if (consp e) e (if (symbolp e) e (if (numberp e) e (funcall e))))) (if (consp b) b nil))))" % (l % k))
     level1 = [u % x for u in unary for x in atoms] + [b % (x, y) for b in binary for x in atoms for y in atoms]
-    out = list(atoms) + level1
+    out = list(atoms) + level1 + rec
     if tier == "thorough":
         out += [u % x for u in unary for x in level1]
     return out
